@@ -37,4 +37,21 @@ func TestCheckSharedGPUs(t *testing.T) {
 		func(t *rapid.T) *sim.World { return sim.GenWorld(t, profile()) }, sim.JudgeNodes(true))
 }
 
+// the same oracle under eviction pressure: queues contend, gangs are nominated onto GPUs that are being released,
+// later workloads of the cycle meet groups that exist only through nominations
+func contentionProfile() sim.Profile {
+	pf := profile()
+	pf.PSharing = 7
+	pf.PGang = 5
+	pf.PTerminating = 4
+	pf.MaxCycles = 3
+	pf.Contention = true
+	return pf
+}
+
+func TestCheckSharedGPUsUnderContention(t *testing.T) {
+	sim.CheckProperty(t, "C02", kit.Budget{Quick: 4000, Thorough: 200000},
+		func(t *rapid.T) *sim.World { return sim.GenWorld(t, contentionProfile()) }, sim.JudgeNodes(true))
+}
+
 func TestReplay(t *testing.T) { sim.ReplayProperty(t, sim.JudgeNodes(true), 20) }
